@@ -81,6 +81,21 @@ theorem http_query_fields (t : Torrent) (hwf : t.wf) (event : Nat) (numWant : In
   · by_cases he : event = 0 <;> by_cases ht : tid = [] <;> simp [httpQuery, lookup, he, ht]
   · by_cases he : event = 0 <;> by_cases ht : tid = [] <;> simp [httpQuery, lookup, he, ht, keyBytes]
 
+/-- **http_query_trackerid.** The id a tracker handed out travels in every later announce, after the event and
+before the key, percent-escaped byte by byte: whatever bytes it consists of (`#`, `&`, blanks, control bytes), it
+un-escapes to exactly those bytes and cannot end, extend or break the query (finding C16-F4); without an id the key
+is absent. -/
+theorem http_query_trackerid (t : Torrent) (event : Nat) (numWant : Int) (tid : Bytes) (hb : isBytes tid = true) :
+    let q := httpQuery t event numWant tid
+    lookup "trackerid" q = (if tid ≠ [] then some (.esc tid) else none) ∧
+    percentUnescape (percentEscape tid) = some tid ∧
+    (q.map (·.1)).getLast? = some "key" := by
+  refine ⟨?_, percentUnescape_escape _ hb, ?_⟩
+  · by_cases he : event = 0 <;> by_cases ht : tid = [] <;> simp [httpQuery, lookup, he, ht]
+  · by_cases he : event = 0 <;> by_cases ht : tid = [] <;> simp [httpQuery, he, ht]
+
+example : renderVal (.esc [0x23, 0x26, 0x20, 0x01]) = "%23%26%20%01" := by decide
+
 /-- Non-vacuity: `sampleTorrent` is well-formed and its peer id does not end in zero bytes. -/
 example : sampleTorrent.wf := by decide
 example : (decodeAnnounce (encodeAnnounce 7 9 sampleTorrent 2 200 [0x2f, 0x61])).map (·.1.peerID)
